@@ -4,7 +4,7 @@
    encrypted under ANY other schedule, in place or buffer-to-buffer, returns the original blocks.
    CBC/PCBC/IGE need D(E x) = x; CFB/CFB-8/OFB need nothing (E arbitrary). *)
 From BM Require Import BlockModes Spec BlockModes_proofs Spec_proofs RoundTrip_proofs Outcome Cts Cts_mem Cts_spec Cts_cs_proofs Cts_dec_proofs
-  Plumbing Toy Ints Ctr Belt Stream Stream_proofs Interp Wrapper_proofs Wrapper_inst Involution_proofs Padded_proofs.
+  Plumbing Toy Ints Ctr Belt Stream Stream_proofs Interp Wrapper_proofs Wrapper_inst Involution_proofs Padded_proofs Toy_proofs.
 
 Theorem C01_cbc : forall C : cipher, cipher_wf C -> DE_id C -> forall sched1 sched2 iv cs cs2,
   length iv = c_bs C -> all_len (c_bs C) (map rd_in cs) ->
@@ -127,3 +127,14 @@ Proof.
     first [now apply cbc_pair_ok | now apply pcbc_pair_ok | now apply ige_pair_ok | now apply cfb_pair_ok | now apply ofb_pair_ok].
 Qed.
 Print Assumptions C01_padded_pairs.
+
+(* the premises are met: every toy cipher of the correspondence harness (any block size, width, key, D-mode)
+   has well-formed sizes; in the `inv` configurations its D is E^-1 on byte strings; and a cipher that is not
+   the identity satisfies cipher_wf and D (E x) = x on ALL lists, as the CBC/PCBC/IGE/cts statements require *)
+Theorem C01_premises_satisfiable :
+  (forall bs w dm key, 0 < bs -> 0 < w -> cipher_wf (toy bs w dm key)) /\
+  (forall key x, bytes_ok key -> bytes_ok x -> toyD_inv key (toyE key x) = x) /\
+  (forall bs w, 0 < bs -> 0 < w -> cipher_wf (rot_cipher bs w) /\ DE_id (rot_cipher bs w)) /\
+  c_E (rot_cipher 3 1) [1; 2; 3]%N = [2; 3; 1]%N.
+Proof. split; [exact toy_wf|]. split; [exact toy_DE_bytes|]. split; [exact rot_cipher_ok|reflexivity]. Qed.
+Print Assumptions C01_premises_satisfiable.
